@@ -244,7 +244,14 @@ func (c *MetadataDefragContext[T]) getMoveData(handle metadata.BlockAllocationHa
 		return MoveAllocationData[T]{}, true
 	}
 
-	return c.BlockList.MoveDataForUserData(userData), false
+	moveData := c.BlockList.MoveDataForUserData(userData)
+	if moveData.Move.SrcAllocation == nil {
+		// The BlockList does not offer this allocation for relocation (for instance one of
+		// this run's own temporaries that it tracks through its own allocation type)
+		return MoveAllocationData[T]{}, true
+	}
+
+	return moveData, false
 }
 
 func (c *MetadataDefragContext[T]) allocFromBlock(blockIndex int, mtData metadata.BlockMetadata, size int, alignment uint, flags uint32, userData any, suballocType uint32, outAlloc *T) error {
